@@ -10,13 +10,32 @@ use std::hash::{Hash, Hasher};
 /// authorize URL with the challenge -> code exchange with the verifier; returns what a server
 /// would read: (code_challenge, code_challenge_method) from the URL, code_verifier from the body
 fn flow(challenge: PkceCodeChallenge, verifier: PkceCodeVerifier) -> (String, String, String) {
+    // the challenge must reach the URL whatever response type the caller selected
+    let mut first: Option<(String, String, String)> = None;
+    let verifier_text = verifier.secret().clone();
+    for rt in [None, Some("code id_token"), Some("token")] {
+        let got = flow_one(challenge.clone(), PkceCodeVerifier::new(verifier_text.clone()), rt);
+        match &first {
+            None => first = Some(got),
+            Some(f) => {
+                if *f != got {
+                    return (format!("DIFFERS-FOR-RESPONSE-TYPE:{:?}", rt), got.0, got.2);
+                }
+            }
+        }
+    }
+    first.unwrap()
+}
+
+fn flow_one(challenge: PkceCodeChallenge, verifier: PkceCodeVerifier, response_type: Option<&str>) -> (String, String, String) {
     let client = BasicClient::new(ClientId::new("aaa".to_string()))
         .set_auth_uri(AuthUrl::new("https://example.com/auth".to_string()).unwrap())
         .set_token_uri(TokenUrl::new("https://example.com/token".to_string()).unwrap());
-    let (url, _) = client
-        .authorize_url(|| CsrfToken::new("s".to_string()))
-        .set_pkce_challenge(challenge)
-        .url();
+    let mut areq = client.authorize_url(|| CsrfToken::new("s".to_string())).set_pkce_challenge(challenge);
+    if let Some(rt) = response_type {
+        areq = areq.set_response_type(&ResponseType::new(rt.to_string()));
+    }
+    let (url, _) = areq.url();
     let mut ch = String::new();
     let mut m = String::new();
     for (k, v) in url.query_pairs() {
